@@ -341,3 +341,59 @@ Example broadcast_example :
   np_broadcast [3; 1; 5]%N [4; 5]%N = Some [3; 4; 5]%N /\
   broadcast (Some [DC 2; DA]) (Some [DC 3; DC 1]) = BRaise.
 Proof. repeat split; repeat constructor. Qed.
+
+(* ---------------------------------------------------------------- proto -> type -> proto *)
+Lemma pdim_roundtrip d : pfits_dim d = true -> dim_to_onnx (dim_from_onnx d) = Some (norm_pdim d).
+Proof.
+  destruct d as [n|s|]; simpl; intros H; unfold dim_to_onnx; simpl.
+  - rewrite H. reflexivity.
+  - destruct (String.eqb s "") eqn:E; simpl; [reflexivity|]. rewrite E. reflexivity.
+  - reflexivity.
+Qed.
+
+Lemma pdims_roundtrip : forall l, forallb pfits_dim l = true ->
+  mapo dim_to_onnx (map dim_from_onnx l) = Some (map norm_pdim l).
+Proof.
+  induction l as [|d l IH]; simpl; intros H; [reflexivity|].
+  apply andb_prop in H. destruct H as [Hd Hl]. rewrite (pdim_roundtrip d Hd), (IH Hl). reflexivity.
+Qed.
+
+Theorem to_from_onnx : forall p t, pfits p = true -> from_onnx p = Some t -> to_onnx t = Some (norm_proto p).
+Proof.
+  induction p as [|e s|q IH|q IH]; simpl; intros t Hf H; try discriminate.
+  - destruct (defined_elem e) eqn:He; [|discriminate]. inversion H; subst. simpl. rewrite He.
+    destruct s as [l|]; simpl; [|reflexivity]. rewrite (pdims_roundtrip l Hf). reflexivity.
+  - destruct (from_onnx q) as [u|] eqn:E; [|discriminate]. inversion H; subst. simpl. rewrite (IH u Hf eq_refl). reflexivity.
+  - destruct (from_onnx q) as [u|] eqn:E; [|discriminate]. inversion H; subst. simpl. rewrite (IH u Hf eq_refl). reflexivity.
+Qed.
+
+(* ---------------------------------------------------------------- labels do not matter for compatibility *)
+Lemma dim_le_strip_r x y : dim_le x (strip_dim y) = dim_le x y.
+Proof. destruct x, y; reflexivity. Qed.
+Lemma dim_le_strip_l x y : dim_le (strip_dim x) y = dim_le x y.
+Proof. destruct x, y; reflexivity. Qed.
+
+Lemma all2_strip_r : forall x y, all2 dim_le x (map strip_dim y) = all2 dim_le x y.
+Proof. induction x as [|a x IH]; destruct y as [|b y]; simpl; try reflexivity. now rewrite dim_le_strip_r, IH. Qed.
+Lemma all2_strip_l : forall x y, all2 dim_le (map strip_dim x) y = all2 dim_le x y.
+Proof. induction x as [|a x IH]; destruct y as [|b y]; simpl; try reflexivity. now rewrite dim_le_strip_l, IH. Qed.
+
+Lemma shape_le_strip_r s s' : shape_le s (option_map (map strip_dim) s') = shape_le s s'.
+Proof. destruct s as [x|], s' as [y|]; simpl; try reflexivity. now rewrite map_length, all2_strip_r. Qed.
+Lemma shape_le_strip_l s s' : shape_le (option_map (map strip_dim) s) s' = shape_le s s'.
+Proof. destruct s as [x|], s' as [y|]; simpl; try reflexivity. now rewrite map_length, all2_strip_l. Qed.
+
+Theorem subtype_strip_r : forall a b, subtype a (strip_ty b) = subtype a b.
+Proof.
+  intros a b. rewrite !subtype_subtype0. revert b.
+  induction a as [|e s|x IH|x IH]; destruct b as [|e' s'|y|y]; simpl; try reflexivity; try apply IH.
+  now rewrite shape_le_strip_r.
+Qed.
+Theorem subtype_strip_l : forall a b, subtype (strip_ty a) b = subtype a b.
+Proof.
+  intros a b. rewrite !subtype_subtype0. revert b.
+  induction a as [|e s|x IH|x IH]; destruct b as [|e' s'|y|y]; simpl; try reflexivity; try apply IH.
+  now rewrite shape_le_strip_l.
+Qed.
+Theorem subtype_strip a b : subtype a (strip_ty b) = subtype a b /\ subtype (strip_ty a) b = subtype a b.
+Proof. split; [apply subtype_strip_r|apply subtype_strip_l]. Qed.
